@@ -62,6 +62,8 @@ def run_case(ctx, g, rng):
 
     api, S = ctx.api, probe.S
     d = rng.choice([":", ":", "/", "/", "::", "_", "."])
+    if g == 0:
+        d = "/"  # case 0 always carries the trigger of the listed known finding (FastAPI's /docs/oauth2-redirect)
     # (with the delimiter ':' a registered prefix or synonym may itself contain a colon - "ncbi:gene": a request for it
     #  is split at the FIRST delimiter like everywhere else in the library, so it is answered for the prefix "ncbi";
     #  seed C17-O: a handler that first tries the router's own, greedy split)
@@ -75,6 +77,13 @@ def run_case(ctx, g, rng):
             names = [x for i, x in enumerate(names) if x != "ncbi" or i == names.index("ncbi")]
         S.counters["wl:prefix-containing-the-delimiter"] += 1
     ups = rng.sample(UBASE, k=len(UBASE))
+    # with the delimiter '/' a prefix is a whole path segment: also one that the web frameworks use for routes of their own
+    # ("static" in Flask, "docs" / "redoc" / "openapi.json" in FastAPI).  Only for the one-call helpers - an app of the
+    # user's own has the routes its owner gave it.  (Finding 13, repaired, and the listed known finding of C17.)
+    framework_names = d == "/" and (rng.random() < 0.12 or g == 0)
+    if framework_names:
+        names += ["static", "docs"] if g == 0 else rng.sample(["static", "docs", "redoc", "openapi.json"], k=2)  # popped first
+        S.counters["wl:prefixes-named-like-framework-routes"] += 1
     recs = []
     # (one app in twelve is built from a converter without any record - "pass an empty list if you plan to build the
     #  converter incrementally": every prefix is unknown to it until it grows)
@@ -90,7 +99,7 @@ def run_case(ctx, g, rng):
     sp = spec.SpecConverter(recs, d)
     # "a resolver app built from any converter": through the one-call helpers or - as their documentation describes -
     # by mounting the blueprint / router on an app of the user's own
-    entry = rng.choice(["app", "app", "mounted"])
+    entry = "app" if framework_names else rng.choice(["app", "app", "mounted"])
     S.counters[f"wl:entry-point:{entry}"] += 1
     evaluated("resolver:app-can-be-built")
     try:
@@ -157,6 +166,8 @@ def run_case(ctx, g, rng):
                 ident = ident[:i] + d + ident[i:]
             if rng.random() < 0.1:
                 ident = p + d + ident  # the identifier repeats the prefix it is requested under ("GO:GO:0032571")
+            if framework_names and ((p == "docs" and rng.random() < 0.3) or (g == 0 and step == 0)):
+                p, segs, ident = "docs", ["oauth2-redirect"], "oauth2-redirect"  # FastAPI's own /docs/oauth2-redirect
             asked.append((p, segs, ident))
         path = "/" + p + d + ident
         curie = p + d + ident
@@ -193,6 +204,10 @@ def run_case(ctx, g, rng):
                     mech = "known-prefix-answered-422"
                 elif want[0] == 302 and res[0] == 302:
                     mech = "location-differs-from-expansion"
+                # the listed known finding, computed exactly: FastAPI's own route /docs/oauth2-redirect answers 200 for the
+                # prefix "docs" (known: 302 expected, unknown: 422 expected) and the identifier "oauth2-redirect" under the delimiter '/'
+                if name == "fastapi" and d == "/" and path == "/docs/oauth2-redirect" and res[0] == 200:
+                    mech = "fastapi-docs-oauth2-redirect-route-shadows-prefix-docs"
                 violation(["C17"], f"resolver:{name}", mech, path=path, expected_status=want[0], expected_location=want[1],
                           status=res[0], location=res[1], handler_expand_pair_calls=handler_calls, **w0)
         evaluated("resolver:frameworks-agree")
@@ -200,6 +215,8 @@ def run_case(ctx, g, rng):
             mech = "frameworks-disagree"
             if "/" in ident and 404 in (got["flask"][0], got["fastapi"][0]):
                 mech = "identifier-with-slash-not-routed"
+            if d == "/" and path == "/docs/oauth2-redirect" and got["fastapi"][0] == 200 and got["flask"] == want:
+                mech = "fastapi-docs-oauth2-redirect-route-shadows-prefix-docs"
             violation(["C17"], "resolver:frameworks-agree", mech, path=path, flask=got["flask"], fastapi=got["fastapi"], **w0)
         ow = sp.prefix_owner(p)
         pcls = "unknown" if ow is None else "canon" if ow.prefix == p else "syn"
